@@ -245,6 +245,9 @@ def _site_name(b, c):
 # sensitivity pack (thorough tier)
 _RU = 'src/index/updater/rune_updater.rs'
 MUTANTS = [
+  {'name': 'seeded-C09-a', 'patch': 'C09-a/patch.diff', 'expect': ('R9.5', 'index_runes', 'four leftover credits')},
+  {'name': 'seeded-C09-b', 'patch': 'C09-b/patch.diff', 'expect': ('R9.2', 'index_runes', 'split: share + 1')},
+
   {'name': 'distribute: requested amount not capped by the balance', 'file': _RU, 'old': '                  allocate(balance, amount.min(*balance), output);', 'new': '                  allocate(balance, amount, output);', 'expect': ('R9.1', 'index_runes', 'distribute site: the amount is capped')},
   {'name': 'single: zero amount allocates nothing', 'file': _RU, 'old': '            let amount = if amount == 0 {\n              *balance\n            } else {\n              amount.min(*balance)\n            };', 'new': '            let amount = amount.min(*balance);', 'expect': ('R9.2', 'index_runes', '')},
   {'name': 'split: extra unit for the wrong outputs', 'file': _RU, 'old': 'if i < remainder { amount + 1 } else { amount },', 'new': 'if i > remainder { amount + 1 } else { amount },', 'expect': ('R9.2', 'index_runes', 'split: share + 1')},
